@@ -427,6 +427,7 @@ def rule_sender(program, ctx):
                            "(the path has not established `event is not None`)", path=cfg.describe_path(path)))
     else:
         ctx.ok(rid, cfg.ast_of(sends[0]), "every dequeued sentinel reaches ws_send")
+        rule_every_item_sent(program, ctx)
     # the frame sent is built from the pair dequeued in this iteration
     from ..core import stmt_assigns
     for sn in sends:
@@ -470,6 +471,54 @@ def rule_sender(program, ctx):
             ctx.bad(finding_at(P, rid, s, "EVENT frame is not built from the dequeued (sub_id, event) pair"))
     if not evs:
         ctx.bad(finding_func(P, rid, fn, "no EVENT frame is built from the dequeued pair", text="def send_subscriptions(...) :: EVENT"))
+
+
+def rule_notify_atomic(program, ctx, prop=P, rid="C13.atomic"):
+    ctx.rule(
+        rid,
+        "a live event is enqueued in the same scheduler step in which it was matched: in BaseSubscription.notify (and overrides) the only suspension point is the "
+        "`queue.put` itself - an await between the match and the put parks the untracked notify task across a CLOSE / replacing REQ (cancel() ends only the "
+        "query task), and the event is then delivered under the id of a subscription that no longer exists or now has other filters",
+        floor=1,
+    )
+    fns = [program.func("nostr_relay.storage.base:BaseSubscription.notify")]
+    for ci in subscription_classes(program):
+        if "notify" in ci.methods and ci.methods["notify"] not in fns:
+            fns.append(ci.methods["notify"])
+    for fn in fns:
+        bad = False
+        for a in walk_no_nested(fn):
+            if isinstance(a, (ast.AsyncFor, ast.AsyncWith)):
+                bad = True
+                ctx.bad(finding_at(prop, rid, a, f"{qual_of(fn)} suspends in `{type(a).__name__}` before the enqueue"))
+            if isinstance(a, ast.Await):
+                v = a.value
+                if isinstance(v, ast.Call) and isinstance(v.func, ast.Attribute) and v.func.attr in ("put", "put_nowait") and "queue" in ast.unparse(v.func.value):
+                    continue
+                bad = True
+                ctx.bad(finding_at(prop, rid, a, f"{qual_of(fn)} awaits `{ast.unparse(v)[:60]}` between matching the event and queueing it: the subscription may be closed or replaced "
+                                   "meanwhile (only query_task is cancelled) and still receives the event"))
+        if not bad:
+            ctx.ok(rid, fn, f"{qual_of(fn)}: match and enqueue in one step")
+
+
+def rule_every_item_sent(program, ctx, prop=P, rid="C13.sender"):
+    """no dequeued pair - event or sentinel - returns to the loop head without a ws_send (a sender-side filter drops stored events the query selected)."""
+    fn = program.func("nostr_relay.web:send_subscriptions")
+    cfg = cfg_of(fn)
+    deq = next((n for n, d in cfg.g.nodes(data=True) if d["kind"] == "stmt" and isinstance(d["ast"], ast.Assign) and isinstance(strip_await(d["ast"].value), ast.Call)
+                and call_name(strip_await(d["ast"].value)) == "get_from_storage"), None)
+    sends = cfg.stmt_nodes(lambda s: any(call_name(c) == "ws_send" for c in own_calls(s)), kinds=("stmt",))
+    loop = next((n for n, d in cfg.g.nodes(data=True) if d["kind"] == "loop"), None)
+    if deq is None or not sends or loop is None:
+        raise AnalysisError("send_subscriptions: dequeue / ws_send / loop not found")
+    path = cfg.find_path(list(cfg.succ(deq, kinds=NORMAL)), [loop, cfg.exit], avoid_nodes=sends, kinds=NORMAL)
+    if path:
+        last = next((cfg.ast_of(n) for n in reversed(path[:-1]) if cfg.ast_of(n) is not None), fn)
+        ctx.bad(finding_at(prop, rid, last, "a dequeued (sub_id, event) pair can go back to the loop head without ws_send: the sender filters what the stored query selected - fewer than "
+                           "min(limit, matching) events are sent, and not the ones the query chose", path=cfg.describe_path(path), text="dropped item"))
+    else:
+        ctx.ok(rid, cfg.ast_of(sends[0]), "every dequeued pair is sent (no sender-side filtering)")
 
 
 LIVE_WORDS = ("closed", "active", "alive", "cancelled", "canceled", "is_open", "clients", "done")
@@ -621,6 +670,7 @@ def rule_sentinel_sites(program, ctx, prop=P, rid="C13.sentinel"):
 
 
 def run(program, ctx):
+    rule_notify_atomic(program, ctx)
     from ..lib import rule_awaited
 
     rule_awaited(program, ctx, P, ANCHORS)
@@ -643,6 +693,8 @@ def run(program, ctx):
     # a REQ that the message validator drops is answered with neither EOSE nor NOTICE
     c19.rule_shape(program, ctx, prop=P, rid="C13.shape")
     c05.rule_deliver(program, ctx, prop=P, rid="C13.deliver")
+    # EOSE needs the stored query to finish: a bounded send queue parks query tasks (and their relay-wide slots) behind a client that does not read
+    c19.rule_queue(program, ctx, prop=P, rid="C13.queue")
     ctx.not_decided += [
         "outcomes of races between a running query task and REQ/CLOSE beyond the liveness rule",
         "bounded-exhaustive command sequences; ordering of stored events before EOSE inside the engine",
